@@ -25,6 +25,8 @@ func VerifC06_AcceptOwnerSpec_P256() { verif.SetGhost("fix-mfgkind", vcP256); vA
 func VerifC06_AcceptOwnerSpec_P384() { verif.SetGhost("fix-mfgkind", vcP384); vAcceptOwnerSpec() }
 
 func vAcceptOwnerSpec() {
+	verif.Expect("stored")
+	verif.Expect("rejected")
 	verif.Bound("C06", "voucher: P-256/P-384 manufacturer key, 0..1 (quick) / 0..2 (thorough) entries with symbolic hashes, keys and signatures (algorithm ids honest; the id space is C04's); to0d nonce and session nonce symbolic, session nonce present/absent; to1d: hash alg in {SHA-256, SHA-384, 0}, value symbolic, 1 address, protected alg in {ES256, ES384, unregistered}, signature symbolic of the owner key's length, payload present/null; requested TTL in {0,3600,2^32-1} (+1 thorough); policy callback absent / returns one of those TTLs or an error; frozen symbolic clock")
 	verif.SetGhost("clock-frozen", 1)
 	h := vwMkHeader(true)
